@@ -40,6 +40,20 @@ mod proofs {
         assert!(r.is_empty());
     }
 
+    // the decoder's value contract as ASSUMED by the Verus unit cram.block (read_itf8 on a byte-slice cursor):
+    // for every n and EVERY trailing bytes, reading spec_itf8(n) ++ rest returns n and leaves exactly rest
+    #[kani::proof]
+    fn itf8_decode_with_rest() {
+        let n: i32 = kani::any();
+        let (enc, len) = spec_itf8(n);
+        let mut buf: [u8; 8] = kani::any();
+        let mut i = 0; while i < 5 { if i < len { buf[i] = enc[i]; } i += 1; }
+        let mut r = &buf[..];
+        let m = read_itf8(&mut r).unwrap();
+        assert!(m == n);
+        assert!(r.len() == 8 - len);
+    }
+
     // C07: the size bookkeeping used for landmarks/container length agrees with the encoder
     #[kani::proof]
     fn itf8_size_of_matches_encoding_length() {
